@@ -349,6 +349,7 @@ class Run:
                 ctx.violation("replay-crash:%s:%s" % (name, v), "bashPrg* crashed while replaying a predicted script (variant %s, after case %s, rc=%d): %s"
                               % (v, last, rc, err[-600:]), {"variant": v, "after": last})
             self.replayed += len(res)
+            groups = {}
             for x in res:
                 if x.get("ok"):
                     continue
@@ -358,10 +359,15 @@ class Run:
                 key = "bashPrg:%s:%s:%s" % (x.get("at"), st.get("code", "?"), x.get("what", "").split(":")[0].replace(" ", "_"))
                 if v != "rel":
                     key += ":" + v
-                ctx.violation(key, "real automaton differs from the specification's prediction at command %d (%s) of case %s, variant %s: %s"
-                              % (x.get("step", -1), x.get("at"), x["id"], v, x.get("what")),
-                              {"variant": v, "case": x["id"], "script": case_to_script(c) if c else None, "result": x,
-                               "how": "build/bin/drv_bash-%s-* replay < script" % v})
+                groups.setdefault(key, []).append((len(hist), x["id"], x, c))
+            for key, g in groups.items():
+                g.sort(key=lambda t: t[:2])
+                _, cid, x, c = g[0]                   # the shortest failing script of the class
+                ctx.violation(key, "real automaton differs from the specification's prediction at command %d (%s) of case %s, variant %s: %s (%d case(s) of this class)"
+                              % (x.get("step", -1), x.get("at"), cid, v, x.get("what"), len(g)),
+                              json.dumps({"variant": v, "case": cid, "result": x, "other_cases": [t[1] for t in g[1:30]],
+                                          "script": case_to_script(c) if c else None,
+                                          "how": "build/bin/drv_bash-%s-* replay < script (the lines of 'script')" % v}))
         for c in cases[:1] + cases[len(cases) // 2:len(cases) // 2 + 1]:
             self.ev.sample({"replay_case": c["id"], "commands": [{k: (h[k] if not isinstance(h[k], list) or len(h[k]) <= 24 else h[k][:24] + ["...(%d)" % len(h[k])])
                                                               for k in ("op", "n", "data", "out", "pos", "buflen")} for h in c["hist"]]}, cap=12)
